@@ -21,14 +21,70 @@
 #include <wallet/walletutil.h>
 
 #include <algorithm>
+#include <cstdlib>
 #include <deque>
+#include <new>
 #include <stdexcept>
 
 #include <pthread.h>
 #include <sys/syscall.h>
 #include <unistd.h>
 
+// ---------------------------------------------------------------------------------------------------------------------------
+// Deterministic addresses for DescriptorScriptPubKeyMan objects (see "Determinism" in walletsim.h).
+// Weak replacements of the global operator new/delete: while at least one WalletNode exists (and the allocator has not been
+// switched off), allocations of exactly sizeof(wallet::DescriptorScriptPubKeyMan) are served from a slot array, lowest free slot
+// first; every other allocation, and every allocation while no WalletNode exists, goes to malloc/free exactly as the default
+// operator new/delete do. Slot pointers are recognised by their address range, so they are released correctly at any time.
+// (Weak: should another translation unit ever define the replaceable operator new, that definition wins and the wallet objects
+// simply come from the heap again.) Single-threaded harness: the slot table is not locked.
+namespace nodesim_spkm_slots {
+constexpr size_t kObj = sizeof(wallet::DescriptorScriptPubKeyMan);
+constexpr size_t kSlot = (kObj + 63) & ~size_t{63};
+constexpr size_t kSlots = 1024;
+alignas(64) static unsigned char g_buf[kSlot * kSlots];
+static bool g_busy[kSlots];
+static int g_wallet_nodes = 0;
+static bool g_enabled = true;
+static uint64_t g_served = 0;
+inline bool Owns(const void* p) { return p >= (const void*)g_buf && p < (const void*)(g_buf + sizeof g_buf); }
+inline void* Take()
+{
+    for (size_t i = 0; i < kSlots; ++i)
+        if (!g_busy[i]) { g_busy[i] = true; ++g_served; return g_buf + i * kSlot; }
+    return nullptr; // table full: fall back to the heap
+}
+inline void Give(void* p) { g_busy[((unsigned char*)p - g_buf) / kSlot] = false; }
+} // namespace nodesim_spkm_slots
+
+__attribute__((weak)) void* operator new(std::size_t n)
+{
+    namespace S = nodesim_spkm_slots;
+    if (n == S::kObj && S::g_wallet_nodes > 0 && S::g_enabled)
+        if (void* p = S::Take()) return p;
+    if (n == 0) n = 1;
+    for (;;) {
+        if (void* p = std::malloc(n)) return p;
+        std::new_handler h = std::get_new_handler();
+        if (!h) throw std::bad_alloc();
+        h();
+    }
+}
+__attribute__((weak)) void operator delete(void* p) noexcept
+{
+    if (nodesim_spkm_slots::Owns(p)) { nodesim_spkm_slots::Give(p); return; }
+    std::free(p);
+}
+__attribute__((weak)) void operator delete(void* p, std::size_t) noexcept
+{
+    if (nodesim_spkm_slots::Owns(p)) { nodesim_spkm_slots::Give(p); return; }
+    std::free(p);
+}
+
 namespace nodesim {
+
+void EnableSpkmSlotAllocator(bool on) { nodesim_spkm_slots::g_enabled = on; }
+uint64_t SpkmSlotAllocations() { return nodesim_spkm_slots::g_served; }
 
 namespace {
 
@@ -109,6 +165,7 @@ std::unique_ptr<util::TaskRunnerInterface> MakeDeferredTaskRunner()
 
 WalletNode::WalletNode(SimNode& node, WalletNodeOpts opts) : m_node(node), m_opts(std::move(opts))
 {
+    ++nodesim_spkm_slots::g_wallet_nodes;
     m_walletdir = m_opts.walletdir.empty() ? fs::PathFromString(m_node.opts.dir) / "wallets" : fs::PathFromString(m_opts.walletdir);
     fs::create_directories(m_walletdir);
     m_args.ForceSetArg("-keypool", std::to_string(std::max(1, m_opts.keypool)));
@@ -122,6 +179,7 @@ WalletNode::WalletNode(SimNode& node, WalletNodeOpts opts) : m_node(node), m_opt
 WalletNode::~WalletNode()
 {
     Detach();
+    --nodesim_spkm_slots::g_wallet_nodes;
 }
 
 void WalletNode::Attach()
